@@ -94,6 +94,17 @@ def depth_feasible(facts, d):
     return True
 
 
+def _is_branch_test(par, node):
+    """node is (part of a boolean combination that is) the test of an if / while / conditional expression"""
+    cur = node
+    while True:
+        p = par.get(id(cur))
+        if isinstance(p, (ast.BoolOp, ast.UnaryOp)) and (not isinstance(p, ast.UnaryOp) or isinstance(p.op, ast.Not)):
+            cur = p
+            continue
+        return isinstance(p, (ast.If, ast.While, ast.IfExp)) and p.test is cur
+
+
 def run(repo, rep):
     rep.explanation = ('R-USE closed use of depth_left (C11.a), R-LIN decrement and exactly-one-level derivation chains '
                        '(C11.b), R-GUARD no recursion below the cut and placeholder shape (C11.c).')
@@ -113,6 +124,10 @@ def run(repo, rep):
             other = p.comparators[0] if p.left is node else p.left
             if src(other) == '0' and type(p.ops[0]) in (ast.Eq, ast.LtE, ast.Gt, ast.NotEq, ast.GtE, ast.Lt):
                 use = 'compare with 0'
+            elif isinstance(other, ast.Constant) and type(other.value) is int and other.value > 0 and _is_branch_test(par, p):
+                # a test "more than k levels left" that only selects a branch: what each branch prints at the cut and one level above
+                # it is decided path by path below (C11.b / C11.c), with this test among the path's facts
+                use = 'branch on a comparison with %d' % other.value
         elif isinstance(p, ast.BinOp) and isinstance(p.op, ast.Sub) and p.left is node and src(p.right) == '1' \
                 and f.cls is ci:
             use = 'decrement in %s' % f.name
@@ -164,10 +179,16 @@ def run(repo, rep):
     itp = S.interp(repo, 'printer')
     for base in ('list', 'tuple', 'set', 'frozenset', 'dict'):
         for native in (True, False):
-            for k in (1, 2):
+            # one and two elements of unknown type; and - a branch taken only for many elements of one kind - more elements than every
+            # size constant the printer compares against (and than a fixed small count), of known kinds
+            try:
+                counts_ = S.scaled_counts(repo, S.printer_for(repo, base))[0] if native and base != 'dict' else []
+            except AnalysisError:
+                counts_ = []
+            for k, kind_ in [(1, None), (2, None)] + [(c_, kd_) for c_ in counts_ for kd_ in ('int', 'float', 'Sub_int')]:
                 try:
                     fn = S.printer_for(repo, base)
-                    v = ValueV('value', S.type_scenario(base, native), [_Sym('x%d' % i) for i in range(k)])
+                    v = ValueV('value', S.type_scenario(base, native), S.typed_elements(k, kind_))
                     res = S.run_printer(repo, itp, fn, v)
                 except (_Undecided, AnalysisError) as e:
                     n += 1
@@ -183,7 +204,7 @@ def run(repo, rep):
                         continue
                     if t is None:
                         continue
-                    lab = '%s[%s,%s,n=%d]' % (fn.name, base, 'native' if native else 'subclass', k)
+                    lab = '%s[%s,%s,n=%d%s]' % (fn.name, base, 'native' if native else 'subclass', k, ',' + kind_ if kind_ else '')
                     ch = subs(t, [])
                     shown = D.show(t)
                     if isinstance(t, D.Call) and t.via != 'build_fncall' and not ch and not any('depth_left' in key for key, _ in pr.facts):
@@ -203,8 +224,14 @@ def run(repo, rep):
                                   '%s returns the placeholder %s on a path taken when one level of depth is left (%s): the cut comes a level too early'
                                   % (fn.name, shown[:80], pr.fact_text()[:80]), nontrivial=True)
                         bad = [(c.prov, c.ctx) for c in ch if not str(c.ctx).startswith('ctx+1:')]
+                        # an element written out directly (its repr, a literal) where it must be shown as a placeholder: with one level
+                        # left the elements themselves are at the cut
+                        lits = [(nm_, D.show(i_)[:60]) for nm_, how_, i_ in (S.element_view(t.items) if isinstance(t, D.Seq) else []) if how_ == 'literal']
+                        others = [i_ for nm_, how_, i_ in (S.element_view(t.items) if isinstance(t, D.Seq) else []) if how_ == 'other']
                         n += 1
-                        rep.check(not bad and bool(ch), 'C11.b', lab + ':children-one-level-deeper', fn.where, 'every child printed one level deeper',
+                        rep.check(not bad and not lits and (bool(ch) or bool(others)), 'C11.b', lab + ':children-one-level-deeper', fn.where, 'every child printed one level deeper',
+                                  ('%s writes the element %s as %s on a path taken when one level of depth is left (%s): the elements are at the cut there and '
+                                   'must be shown as placeholders' % (fn.name, lits[0][0], lits[0][1], pr.fact_text()[:80])) if lits and not bad else
                                   '%s prints %s under contexts that are not exactly one nested_call() below its own (children found: %d): each container '
                                   'must consume exactly one depth level' % (fn.name, bad or 'no child at all', len(ch)), nontrivial=True)
     # leaf printers that have a placeholder (strings, numbers): the same cut
